@@ -8,11 +8,12 @@
    delivered set is computed here (never read back from the implementation).
 
    TRACE_FILE: JSON array of [L, decl, ev]; events, each with obs = [verified, completed, closed, pending]:
-     Open(w, ok)  Write(w, n, good, openb, pendb)  Step  Quiesce
+     Open(w, ok, guarded)  Write(w, n, good, openb, pendb)  Step  Quiesce
      Read(result)   result = "good" (exactly the content) | "bad" (other bytes) | "refused" (not readable) | "raises" *)
 EXTENDS Naturals, Sequences, FiniteSets, TLC, Json, IOUtils, TLCExt
-VARIABLES tid, l, sofar, allgood, alive, delivered, opened, obs, reads, lastread
-tvars == <<tid, l, sofar, allgood, alive, delivered, opened, obs, reads, lastread>>
+VARIABLES tid, l, sofar, allgood, alive, delivered, opened, obs, reads, lastread,
+          guardedw     \* writers opened the callers' way (not verified and writeable was checked first)
+tvars == <<tid, l, sofar, allgood, alive, delivered, opened, obs, reads, lastread, guardedw>>
 TraceLog == JsonDeserialize(IOEnv.TRACE_FILE)
 T == TraceLog[tid]
 WMAX == 8
@@ -21,12 +22,13 @@ NOREAD == [v |-> FALSE, d |-> FALSE, r |-> "refused"]
 
 TInit == /\ tid \in 1..Len(TraceLog) /\ l = 1
          /\ sofar = [w \in Ws |-> 0] /\ allgood = [w \in Ws |-> TRUE] /\ alive = [w \in Ws |-> FALSE]
-         /\ delivered = {} /\ opened = {} /\ reads = 0 /\ lastread = NOREAD
+         /\ delivered = {} /\ opened = {} /\ reads = 0 /\ lastread = NOREAD /\ guardedw = {}
          /\ obs = [verified |-> FALSE, completed |-> 0, closed |-> <<>>, pending |-> <<>>]
 E == T.ev[l]
 Consume(e) == l <= Len(T.ev) /\ T.ev[l].event = e /\ l' = l + 1 /\ tid' = tid
 TrOpen == /\ Consume("Open") /\ obs' = E.obs
           /\ IF E.ok THEN opened' = opened \cup {E.w} /\ alive' = [alive EXCEPT ![E.w] = TRUE] ELSE UNCHANGED <<opened, alive>>
+          /\ guardedw' = IF E.ok /\ E.guarded THEN guardedw \cup {E.w} ELSE guardedw
           /\ UNCHANGED <<sofar, allgood, delivered, reads, lastread>>
 TrWrite == /\ Consume("Write") /\ obs' = E.obs
            /\ LET w == E.w
@@ -37,14 +39,14 @@ TrWrite == /\ Consume("Write") /\ obs' = E.obs
                  ELSE /\ sofar' = [sofar EXCEPT ![w] = ns] /\ allgood' = [allgood EXCEPT ![w] = ag]
                       /\ alive' = [alive EXCEPT ![w] = ns < T.decl]
                       /\ delivered' = IF ns = T.decl /\ ag /\ ns = T.L THEN delivered \cup {w} ELSE delivered
-           /\ UNCHANGED <<opened, reads, lastread>>
+           /\ UNCHANGED <<opened, reads, lastread, guardedw>>
 TrStep == /\ (Consume("Step") \/ Consume("Quiesce")) /\ obs' = E.obs
-          /\ UNCHANGED <<sofar, allgood, alive, delivered, opened, reads, lastread>>
+          /\ UNCHANGED <<sofar, allgood, alive, delivered, opened, reads, lastread, guardedw>>
 \* the read ends the round: what was delivered has been handed out
 TrRead == /\ Consume("Read") /\ obs' = E.obs
           /\ lastread' = [v |-> obs.verified, d |-> delivered # {}, r |-> E.result]
           /\ delivered' = {} /\ reads' = reads + 1
-          /\ UNCHANGED <<sofar, allgood, alive, opened>>
+          /\ UNCHANGED <<sofar, allgood, alive, opened, guardedw>>
 TNext == TrOpen \/ TrWrite \/ TrStep \/ TrRead
 TSpec == TInit /\ [][TNext]_tvars
 
@@ -55,7 +57,7 @@ TReadGood == lastread.v => lastread.r = "good"
 TNeverBadBytes == lastread.r # "bad" /\ (lastread.r = "good" => lastread.d)
 \* conversely: once everything queued has run after a complete correct copy, the blob is verified
 AtQuiesce == l > 1 /\ T.ev[l - 1].event = "Quiesce"
-TBufComplete == (AtQuiesce /\ delivered # {}) => (obs.verified /\ \A w \in opened : obs.closed[w] /\ ~obs.pending[w])
+TBufComplete == (AtQuiesce /\ delivered # {}) => (obs.verified /\ \A w \in guardedw : obs.closed[w] /\ ~obs.pending[w])
 TBufOnce == obs.completed <= reads + 1
 
 Reached == TLCSet(tid, IF TLCGetOrDefault(tid, 1) > l THEN TLCGetOrDefault(tid, 1) ELSE l)
